@@ -100,22 +100,24 @@ def clause_c(ctx, P):
 
 def clause_d(ctx, P):
     c13.clause_d(ctx, P)     # shared with C13: timeout ordering, deadline guard, F5 on hostname_resolvers
-    fn = P.one("Zeroconf::add_hostname_resolver")
+    fn = resolver_registration_fn(P)
     tr = tracer(P, fn)
     ins = [(b, t) for b, t in fn.calls() if "HashMap" in cname(t) and method(cname(t)) == "insert" and recv_mentions(P, fn, b, t, "hostname_resolvers", "Zeroconf")]
     adds = calls_to(fn, "Zeroconf::add_timer")
     ok = False
+    stored = []
     if ins and adds:
         ie = tr.operand(ins[0][1]["args"][2], endpos(fn, ins[0][0]))
-        ae = tr.operand(adds[0][1]["args"][1], endpos(fn, adds[0][0]))
         # the timer value is the payload of the same Option stored in the map
         stored = [x for x in walk(ie) if x[0] == "call" and strip_generics(x[1]).endswith("Option::map")]
+        adds = [(b, t) for (b, t) in adds if any(x in stored for x in walk(tr.operand(t["args"][1], endpos(fn, b))))] or adds
+        ae = tr.operand(adds[0][1]["args"][1], endpos(fn, adds[0][0]))
         ok = bool(stored) and any(x in stored for x in walk(ae))
     ctx.ob("C17d.F6.deadline-armed", fn.name, ok, fn.loc(), "the stored deadline (timeout.map(|t| now + t)) is also pushed as a timer")
     if adds:
         # armed whenever a deadline exists: add_timer guarded only by Some(deadline)
         b = adds[0][0]
-        e_some = guard_edges(P, fn, lambda atom, outcome, bb: atom[0] == "variant" and outcome == frozenset(["Some"]))
+        e_some = guard_edges(P, fn, lambda atom, outcome, bb: atom[0] == "variant" and outcome == frozenset(["Some"]) and (not stored or any(x in stored for x in walk(atom[1]))))
         e_none = edges_complement(P, fn, e_some)
         ok = not any(fn.term(r)["k"] == "return" for (bb, tgt) in e_some for r in fn.reachable(tgt, removed_blocks=[b]))
         ctx.ob("C17d.F6.deadline-armed-always", fn.name, ok, fn.loc(b), "every path with Some(deadline) reaches add_timer")
